@@ -28,6 +28,10 @@ class Model:
         return (self.v, self.lo, self.up, self.fx, self.label)
 
 
+def _prints_exactly(x):
+    return math.isinf(x) or float("%.12E" % x) == x
+
+
 def elem_state(e):
     return (e.get_values(), e.get_lower_limits(), e.get_upper_limits(), e.are_fixed(), e.get_label())
 
@@ -68,7 +72,7 @@ def ops_for(cls, key, tier):
         d2 = cls.get_default_value(k2)
         ops += [("set_values", "kw", k2, d2 * 2 if d2 else 0.5), ("set_fixed", "kw", k2, not cls.is_fixed_by_default(k2)),
                 ("reset_parameters", "mixed", (key, k2), None), ("reset_parameters", "pos", (key,), None), ("reset_parameters", "kwonly", (k2,), None)]
-    ops += [("copy", "", "", None), ("deepcopy", "", "", None)]
+    ops += [("copy", "", "", None), ("deepcopy", "", "", None), ("roundtrip", "", "", None)]
     return ops
 
 
@@ -144,6 +148,13 @@ def apply_real(e, op):
         return _copy.copy(e)
     if name == "deepcopy":
         return _copy.deepcopy(e)
+    if name == "roundtrip":
+        # to_string + parse (the extended description code carries values, limits, fixed flags and the label)
+        from pyimpspec import parse_cdc
+        got = parse_cdc(e.to_string(12)).get_elements(recursive=True)
+        if len(got) < 1 or type(got[0]) is not type(e):
+            raise AssertionError(f"parsed {got!r}")
+        return got[0]
 
 
 def repro_src(cls, seq):
@@ -159,6 +170,9 @@ def repro_src(cls, seq):
             call = f"e.reset_parameter({key!r})"
         elif name == "reset_parameters":
             call = {"mixed": f"e.reset_parameters({key[0]!r}, **{{{key[1] if len(key) > 1 else key[0]!r}: True}})" if isinstance(key, tuple) else "", "pos": f"e.reset_parameters(*{key!r})", "kwonly": f"e.reset_parameters(**{{k: None for k in {key!r}}})"}.get(form, "e.reset_parameters()")
+        elif name == "roundtrip":
+            call = ("c = pyimpspec.parse_cdc(e.to_string(12)).get_elements(recursive=True)[0]; "
+                    "assert (c.get_values(), c.get_lower_limits(), c.get_upper_limits(), c.are_fixed(), c.get_label()) == (e.get_values(), e.get_lower_limits(), e.get_upper_limits(), e.are_fixed(), e.get_label())")
         else:
             call = f"c = copy.{name}(e); assert (c.get_values(), c.get_lower_limits(), c.get_upper_limits(), c.are_fixed(), c.get_label()) == (e.get_values(), e.get_lower_limits(), e.get_upper_limits(), e.are_fixed(), e.get_label())"
         lines.append(call)
@@ -197,7 +211,9 @@ def run_class(args):
             evals += 1
             distinct += 1
             what = None
-            if op[0] in ("copy", "deepcopy"):
+            if op[0] == "roundtrip" and not (pre_in_limits and all(math.isfinite(x) for x in m.v.values()) and all(_prints_exactly(x) for d_ in (m.v, m.lo, m.up) for x in d_.values())):
+                continue            # infinite values are a recorded finding of C01/C04; numbers must survive 12 decimals
+            if op[0] in ("copy", "deepcopy", "roundtrip"):
                 if not pre_in_limits:
                     continue        # outside the property's quantifier
                 if got is not None:
@@ -215,7 +231,7 @@ def run_class(args):
                     except Exception as ex:  # noqa
                         what = f"mutating the {op[0]} raised {type(ex).__name__}"
                 if what:
-                    fails.append((f"{op[0]}:{what}", f"Element.__{op[0]}__", f"{sym}: {what} after {seq2}", repro_src(cls, seq2)))
+                    fails.append((f"{op[0]}:{what}", "Parser.element" if op[0] == "roundtrip" else f"Element.__{op[0]}__", f"{sym}: {what} after {seq2}", repro_src(cls, seq2)))
                 continue
             if got != exp:
                 what = f"expected {exp or 'no exception'} got {got or 'no exception'}"
